@@ -41,6 +41,18 @@ def h_roundtrip(ctx, idw, seqw, twin=False):
         u.transaction_seq_num.byte_len == seqw, u.header_len == n, u.packet_len == n + dlen))
     ctx.holds("unpack==original", u == h)
     ctx.holds("repack identical", u.pack() == raw)
+    others = [bytes.fromhex("2c0005330102030405060708090a0b0c0d0e0f10"), bytes.fromhex("3fffff77" + "11" * 24), bytes.fromhex("2000000001020304")]
+    earlier_result_survives(ctx, lambda: sym_and(
+        u.pdu_type == ptype, u.direction == v["direction"], u.transmission_mode == v["mode"], u.crc_flag == v["crc"],
+        u.file_flag == v["large"], u.pdu_data_field_len == dlen, u.source_entity_id.value == v["src"], u.dest_entity_id.value == v["dst"],
+        u.transaction_seq_num.value == v["seq"], u.source_entity_id.byte_len == idw, u.transaction_seq_num.byte_len == seqw,
+        u.pack() == raw), [(lambda o=o: PduHeader.unpack(o)) for o in others])
+    pack_hands_out_fresh_buffers(ctx, h.pack, ctx.bytes_of(ref))
+    # in-place update of an ID / sequence number field (by integer and by octets) is what the next pack() emits
+    v2 = dict(v, seq=ctx.int("seq2", 0, (1 << (8 * seqw)) - 1), src=ctx.int("src2", 0, (1 << (8 * idw)) - 1))
+    conf.transaction_seq_num.value = v2["seq"]
+    conf.source_entity_id.value = ctx.bytes_of(be(v2["src"], idw))
+    ctx.holds("pack after in-place field update == reference", h.pack() == ctx.bytes_of(ref_header(v2, ptype, segm, dlen)))
     if twin:
         ctx.holds("twin", raw != ctx.bytes_of(ref))
 
